@@ -256,6 +256,7 @@ MakeScenario()
   vs::Scenario s;
   s.nthreads = static_cast<int>(PROG.th.size());
   s.gated_from = PROG.wave2_from;
+  s.deadlock_props = "C14";  // a GetThreadID call that never returns
   s.setup = Setup;
   s.body = Body;
   s.teardown = Teardown;
